@@ -10,6 +10,7 @@ import (
 	"os/exec"
 	"path/filepath"
 	"regexp"
+	"runtime"
 	"sort"
 	"strings"
 	"sync"
@@ -204,6 +205,10 @@ func (e *Env) Load(pkgDirs ...string) (*Program, error) {
 		patterns = append(patterns, Module+"/"+d)
 	}
 	patterns = append(patterns, "runtime", "unicode/utf8", "strconv", "errors", "strings", "bytes")
+	// type-checking with many threads is dominated by kernel page-fault contention in
+	// this sandbox; a few threads are several times faster
+	prev := runtime.GOMAXPROCS(4)
+	defer runtime.GOMAXPROCS(prev)
 	initial, err := packages.Load(cfg, patterns...)
 	if err != nil {
 		return nil, err
